@@ -698,6 +698,25 @@ func releaseCheck(sqldb *sql.DB, f *fakeDB) string {
 	return ""
 }
 
+// scratchDests: fresh destinations of the same types (what cannot be a destination is passed as it is).
+func scratchDests(dests []any) []any {
+	var out []any
+	for _, d := range dests {
+		v := reflect.ValueOf(d)
+		switch {
+		case d == nil:
+			out = append(out, d)
+		case v.Kind() == reflect.Pointer && !v.IsNil():
+			out = append(out, reflect.New(v.Type().Elem()).Interface())
+		case v.Kind() == reflect.Map && !v.IsNil():
+			out = append(out, reflect.MakeMap(v.Type()).Interface())
+		default:
+			out = append(out, d)
+		}
+	}
+	return out
+}
+
 type scanObs struct {
 	leak     string
 	line     string
@@ -725,6 +744,8 @@ func implScan(c *scanCase) (o scanObs) {
 	defer dropFakeDB(f.name)
 	defer sqldb.Close()
 	sqldb.SetMaxOpenConns(1)
+	held := c.colSeed%4 == 1
+	warmup := false
 	f.rowsFor = func(sqlText string, _ []driver.NamedValue) *rowsScript {
 		seen := map[string]bool{}
 		n := 0
@@ -733,6 +754,12 @@ func implScan(c *scanCase) (o scanObs) {
 				seen[m[1]] = true
 				n++
 			}
+		}
+		if warmup {
+			// the first run of a held Query: other arrangement of the columns
+			warmup = false
+			cols, row, _ := colScript([]int{0, 1, 6, c.mode}[c.colSeed/4%4], c.colSeed+7, n)
+			return &rowsScript{Cols: cols, Rows: [][]driver.Value{row}, FailAt: -1}
 		}
 		cols, row, cells := colScript(c.mode, c.colSeed, n)
 		c.cols, c.cells = cols, cells
@@ -747,7 +774,19 @@ func implScan(c *scanCase) (o scanObs) {
 				done <- fmt.Errorf("PANIC %v", r)
 			}
 		}()
-		done <- db.Query(context.Background(), stmt, c.inargs...).Get(c.dests...)
+		q := db.Query(context.Background(), stmt, c.inargs...)
+		if held {
+			// a Query value may be run more than once: every run scans the columns its own result
+			// has.  The first run goes into scratch destinations of the same types.
+			warmup = true
+			it := q.Iter()
+			if it.Next() {
+				it.Get(scratchDests(c.dests)...)
+			}
+			it.Close()
+			warmup = false
+		}
+		done <- q.Get(c.dests...)
 	}()
 	select {
 	case err = <-done:
